@@ -204,3 +204,27 @@ func (c *Ctx) posv(v ssa.Value) string {
 	}
 	return c.P.Pos(v.Pos())
 }
+
+// freshMapResult: every return of the (single-result) function is a map made
+// in that call: the function never returns nil, whatever it is given.
+func (c *Ctx) freshMapResult(rule, key string, f *ssa.Function, why string) {
+	if f == nil {
+		return
+	}
+	c.R.Fn(fname(f))
+	ok, n := true, 0
+	bad := ""
+	for _, b := range f.Blocks {
+		ret, isRet := b.Instrs[len(b.Instrs)-1].(*ssa.Return)
+		if !isRet || len(ret.Results) != 1 {
+			continue
+		}
+		n++
+		for _, d := range phiDefs(ret.Results[0], nil, map[ssa.Value]bool{}) {
+			if _, isMk := d.(*ssa.MakeMap); !isMk {
+				ok, bad = false, d.String()+" at "+c.pos(ret)
+			}
+		}
+	}
+	c.R.Check(ok && n > 0, rule, key, c.P.Pos(f.Pos()), "every return is a map made in the call", why+" (can return "+bad+")")
+}
